@@ -17,8 +17,9 @@ COMPONENTS = {
     "M": {"type": "object", "description": "The M model.", "example": {"m": "em"}, "properties": {"m": S}, "required": ["m"]},
     "N": {"type": "object", "description": "The N model.", "properties": {"n": {"type": "integer"}}, "required": ["n"]},
     "E": {"type": "string", "enum": ["x", "y"], "description": "The E enum.", "example": "x"},
+    "D": {"type": "object", "description": "A model with an inline nested object.", "properties": {"deep": {"type": "object", "properties": {"z": {"type": "string"}}}}},
 }
-POSITIONS = ["prop", "req", "items", "addl", "param", "body", "resp", "comp", "member", "allof"]
+POSITIONS = ["prop", "req", "items", "addl", "param", "body", "resp", "comp", "member", "allof", "toparray", "topunion"]
 
 
 def show(s: dict) -> str:
@@ -90,6 +91,12 @@ def document(s: dict, positions=POSITIONS, version: str = "3.1.0", comp: bool = 
     if "comp" in positions and comp and not is_bare_ref(s):
         schemas["Tgt"] = copy.deepcopy(t)
         holder["properties"]["p_comp"] = {"$ref": "#/components/schemas/Tgt"}
+    if "toparray" in positions:          # a component that is an array of the spelling, used by a property
+        schemas["TopArr"] = {"type": "array", "items": copy.deepcopy(t)}
+        holder["properties"]["p_toparr"] = {"$ref": "#/components/schemas/TopArr"}
+    if "topunion" in positions:          # a component that is a union with the spelling as a member
+        schemas["TopUni"] = {"oneOf": [copy.deepcopy(t), {"type": "integer"}]}
+        holder["properties"]["p_topuni"] = {"$ref": "#/components/schemas/TopUni"}
     if "allof" in positions:
         schemas["Child"] = {"allOf": [{"$ref": "#/components/schemas/N"}, {"type": "object", "properties": {"p_inh": copy.deepcopy(t)}}]}
     if not holder["required"]:
@@ -137,7 +144,7 @@ def project(prop, root: str = "p") -> dict:
         else:
             d["k"] = "model"
             names = {q.name for q in list(prop.required_properties or []) + list(prop.optional_properties or [])}
-            d["v"] = [src for src, pn in (("M", "m"), ("N", "n"), ("props", "inner")) if pn in names]
+            d["v"] = [src for src, pn in (("M", "m"), ("N", "n"), ("D", "deep"), ("props", "inner")) if pn in names]
         return d
     d["k"] = {"NoneProperty": "none", "StringProperty": "str", "DateProperty": "date", "IntProperty": "int", "FloatProperty": "num", "BooleanProperty": "bool",
               "ListProperty": "list", "AnyProperty": "any"}.get(n, n)
